@@ -47,9 +47,9 @@ def harnesses(tier, seed):
             for (n, t, c) in (((4, 2, 1), (4, 2, 2), (5, 2, 2), (5, 3, 1), (5, 2, 3)) if ty != "FLF" else ((4, 2, 1), (3, 2, 2))):
                 hs.append(e2e(term, ty, n, t, c))
             if ty != "FLF":
-                if ty == "MF":  # chunked pulls from the owning Vec source are ~15 min per query: one kernel only
-                    hs.append(e2e(term, ty, 4, 2, 2, src="vec"))
+                # chunked pulls from the owning Vec source: 25 min / 22 GB per query - left to the slice source
                 hs.append(e2e(term, ty, 4, 2, 2, src="range"))
-                hs.append(e2e(term, ty, 4, 2, 1, src="sched"))
+                if ty == "MF":   # the filter_map kernels over the modelled iterator source exhaust 28 GB with the pull-size log
+                    hs.append(e2e(term, ty, 4, 2, 1, src="sched"))
         hs.append(e2e("count", "MF", 6, 6, 1, avail=8))
     return hs
